@@ -28,7 +28,17 @@ fn main() {
 		"C16" => c16::run(&args, &mut rep),
 		"C17" => c17::run(&args, &mut rep),
 		"C19" => c19::run(&args, &mut rep),
-		"C20" => rt.block_on(c20::run(&args, &mut rep)),
+		"C20" => {
+			rt.block_on(c20::run(&args, &mut rep));
+			// the last shard finishes with the cases that need a marker in the filesystem root itself: it confines
+			// itself to a scratch tree (chroot) and therefore writes its report through a handle opened beforehand
+			if args.shard + 1 == args.nshards && args.out != std::path::PathBuf::from("/dev/stdout") {
+				let mut out = std::fs::File::create(&args.out).expect("report file");
+				rt.block_on(c20::root_phase(&args, &mut rep));
+				rep.write_to(&mut out);
+				return;
+			}
+		}
 		other => {
 			eprintln!("pure engine: unknown property {other}");
 			std::process::exit(2);
